@@ -36,6 +36,10 @@ class Recorder:
     def bump(self, k, n=1):
         self.calls.append(('bump', k, n))
 
+    def emit(self, obj):
+        """Hand an arbitrary (picklable) object back to the parent: collected in ctx.emitted, in item order."""
+        self.calls.append(('emit', obj))
+
     def violation(self, sig, what, case):
         # keep the payload small: after a few of a signature only the signature travels
         self._sig[sig] = self._sig.get(sig, 0) + 1
@@ -124,6 +128,10 @@ def _merge(ctx, res):
             ctx.bump(c[1], c[2])
         elif c[0] == 'violation':
             ctx.violation(c[1], c[2], c[3])
+        elif c[0] == 'emit':
+            if not hasattr(ctx, 'emitted'):
+                ctx.emitted = []
+            ctx.emitted.append(c[1])
 
 
 def pmap_dump(ctx, fn, path, only=None, stride=1, nproc=None, chunk=500):
